@@ -165,8 +165,9 @@ def check_C03(run):
     run.cov["traces_validated_against_impl"] = len(needs_model) + len(pj)
     run.sample({"request": reqs[0], "implementation": impl[0][:300]})
     run.sample({"request": reqs[-1], "implementation": impl[-1][:300]})
-    run.cov["explanation"] = ("PARTIAL proof: the root loop returns the move of the last reported iteration and reports iterations in order "
-                              "(theorems listed); legality of the answer for all limits/histories/tables rests on the runs above")
+    run.cov["explanation"] = ("proof on the model: the root loop returns the move of the last reported iteration and reports iterations in order, and for every limit, "
+                              "history and admissible table the answer is a legal root move whenever one exists (C03_search_answers_with_a_legal_move, no hypothesis left; "
+                              "roots must satisfy the executable invariant invr_b); the tie to the binary rests on the runs above")
 
 
 def expand_uci_roots(reqs, meta):
